@@ -757,5 +757,6 @@ ssize_t ZCK_PUBLIC_API zck_get_chunk_data(zckChunk *idx, char *dst,
     if(!seek_data(zck, zck_get_chunk_start(idx), SEEK_SET))
         return -1;
     zck->comp.data_idx = idx;
+    zck->comp.data_eof = false;
     return comp_read(zck, dst, dst_size, 1);
 }
